@@ -6,3 +6,7 @@ export GOFLAGS=-mod=mod GOPROXY=off GOSUMDB=off GOTOOLCHAIN=local
 mkdir -p build evidence replays
 (cd engine && go build -o ../build/xsym .)
 echo "xsym built"
+# differential test of the string-function models against the standard library
+build/xsym -overlay harness/overlay -write-overlay build/overlay.json
+(cd /repo && GOFLAGS=-mod=readonly go test -c -vet=off -o /verif/build/sym.test -overlay /verif/build/overlay.json ./zzverif/sym)
+build/sym.test >/dev/null && echo "models validated"
